@@ -59,7 +59,7 @@ func (in *Instance) defaults() {
 		in.MaxConcretize = 256
 	}
 	if in.LazyArmLimit == 0 {
-		in.LazyArmLimit = 4000
+		in.LazyArmLimit = 6000
 	}
 	if in.MergeStepLimit == 0 {
 		in.MergeStepLimit = 200000
